@@ -2003,6 +2003,9 @@ def _update_all_results(
         # Function produces multiple outputs, but only one is requested
         assert func.output_picker is not None
         for name in func.output_name:
+            if name in all_results:
+                # A value supplied for this output was used by the evaluation; keep it
+                continue
             all_results[name] = (
                 _LazyFunction(func.output_picker, args=(r, name))
                 if lazy
